@@ -513,6 +513,67 @@ def g_http_verbs(th):
         if not (ok and r >= ml and m['ids'][:m['count']] == [0]): bad.append(v.decode())
     return not bad, {'obligation': 'ground/http-verbs', 'methods_not_matched_as_stated': bad}
 
+def g_http_verbs_only(th, repo):
+    """C13 "unknown method => silence", decided on the compiled table: outside the closure D of UNANCHORED_STATE (rows
+    that can never report a method: ground/http-dead-rows) the rows reachable from BASE_STATE over byte symbols form an
+    acyclic graph, and the symbol paths from BASE_STATE to a row reporting id 0 (HttpField::Verb) spell exactly the nine
+    methods of the statement (the table is case-insensitive: a symbol stands for both cases of a letter).  A method the
+    statement does not list is replayed on the hook binary as `<METHOD> / HTTP/1.0 CRLF CRLF` over UDP."""
+    w = 1 << th['row_shift']; c2s = th['char_to_symbol'][:256]
+    syms = sorted(set(c2s))
+    def ids(r):
+        m = th['matches'][r]; return m['ids'][:m['count']]
+    dead = {1}; todo = [1]
+    while todo:
+        r = todo.pop()
+        for s_ in syms:
+            r2 = th['transitions'][r * w + s_]
+            if r2 not in dead: dead.add(r2); todo.append(r2)
+    edges = {}; reach = {0}; todo = [0]
+    while todo:
+        r = todo.pop()
+        for s_ in syms:
+            r2 = th['transitions'][r * w + s_]
+            if r2 in dead: continue
+            edges.setdefault(r, []).append((s_, r2))
+            if r2 not in reach: reach.add(r2); todo.append(r2)
+    color = {}; cyc = []
+    def dfs(r):
+        color[r] = 1
+        for s_, r2 in edges.get(r, []):
+            if color.get(r2) == 1: cyc.append([r, s_, r2])
+            elif r2 not in color: dfs(r2)
+        color[r] = 2
+    dfs(0)
+    info = {'obligation': 'ground/http-verbs-only', 'dead_rows': sorted(dead), 'reachable_rows': len(reach), 'cycles': cyc[:5]}
+    if cyc:
+        return False, info
+    symch = {}
+    for s_ in syms:
+        bs = [b for b in range(256) if c2s[b] == s_]
+        symch[s_] = chr(bs[0]).upper() if len(bs) <= 2 and all(chr(b).upper() == chr(bs[0]).upper() for b in bs) else '\\x%02x..' % bs[0]
+    found = []
+    def walk(r, path):
+        for s_, r2 in edges.get(r, []):
+            p_ = path + symch[s_]
+            if 0 in ids(r2): found.append(p_)
+            walk(r2, p_)
+    walk(0, '')
+    want = {'GET', 'PUT', 'POST', 'HEAD', 'DELETE', 'CONNECT', 'OPTIONS', 'TRACE', 'PATCH'}
+    extra = sorted(set(found) - want); missing = sorted(want - set(found))
+    info.update({'methods_recognised': sorted(found), 'not_in_the_statement': extra, 'missing': missing})
+    if extra:
+        d = R.Driver(repo)
+        try:
+            d.cfg(mac=R.MAC)
+            req = extra[0].encode('latin1') + b' / HTTP/1.0\r\n\r\n'
+            r = d.frame(R.eth(R.MAC, R.PEER, 0x0800, R.ip4('10.0.0.2', '10.0.0.1', 17, R.udp(40000, 80, req))))
+            info['witness'] = {'request_hex': req.hex(), 'request': req.decode('latin1'), 'outcome': r[0],
+                               'reply_starts': (r[1][42:42 + 24].decode('latin1') if r[0] == 'reply' else None)}
+        finally:
+            d.close()
+    return not extra and not missing, info
+
 # ----------------------------------------------------------------------------- per-property driver
 def run(pid, tier, repo, build, seed):
     res = {'obligations': 0, 'discharged': 0, 'violations': [], 'undecided': [], 'details': []}
@@ -556,6 +617,9 @@ def run(pid, tier, repo, build, seed):
             if pid in ('C13', 'C01'):
                 ok_, info_ = g_http_verbs(th)
                 add(ok_, info_, 'ground/http-verbs', 'axiom_http_verbs: each of the nine methods is reported (id 0) exactly at its last byte: %s' % info_)
+            if pid == 'C13':
+                ok_, info_ = g_http_verbs_only(th, repo)
+                add(ok_, info_, 'ground/http-verbs-only', 'the methods recognised by the compiled HTTP table are exactly the nine of the statement (unknown method => not answered): %s' % {k: info_.get(k) for k in ('not_in_the_statement', 'missing', 'cycles', 'witness')})
             if pid in ('C11', 'C13', 'C01'):
                 ok_, info_ = g_http_dead_rows(th)
                 add(ok_, info_, 'ground/http-dead-rows', 'axiom_http_dead_rows: no method can be reported from the closure of UNANCHORED_STATE: %s' % info_)
